@@ -43,6 +43,9 @@ type Scope struct {
 	Setup func(x *apix.Exec)
 	// Session: run every execution as the single logical thread of a controlled session (deadlock detection).
 	Session bool
+	// MapDesc: (implies Session) every map iteration of the code under test runs in descending instead of ascending
+	// key order - the other extreme of the orders Go may pick (child-bucket spill order, hash-map freelist spans).
+	MapDesc bool
 }
 
 // Track is the bookkeeping the explorer keeps along a program.
@@ -326,11 +329,20 @@ func Expand(job Job) Res {
 	// inSession runs f as the only logical thread of a controlled session when the scope asks for it, so that a
 	// lock that is never released shows up as a "deadlock" verdict instead of a hang.
 	inSession := func(f func()) (string, string) {
-		if !sc.Session {
+		if !sc.Session && !sc.MapDesc {
 			f()
 			return "", ""
 		}
 		s := vsync.NewSession(nil)
+		if sc.MapDesc {
+			s.MapOrder = true
+			s.OnPoint = func(p *vsync.Point) int {
+				if p.Kind == "map" {
+					return p.N - 1
+				}
+				return 0
+			}
+		}
 		s.Run(f)
 		return s.Verdict, s.Detail
 	}
@@ -503,6 +515,7 @@ func Explore(pool *par.Pool, name, tier string, deadline time.Time, classify Cla
 		}
 		var next []node
 		results := make([]*Res, len(frontier))
+		pool.Deadline, pool.Skipped = deadline, 0
 		err := pool.Run(jobs, func(r par.Result) {
 			n := frontier[r.Idx]
 			if r.Died || r.Hung {
@@ -576,9 +589,15 @@ func Explore(pool *par.Pool, name, tier string, deadline time.Time, classify Cla
 				}
 			}
 		}
+		if pool.Skipped > 0 {
+			st.Exhaustive = false
+			st.Capped = fmt.Sprintf("deadline reached inside depth %d: %d of %d programs of that level not expanded", depth+1, pool.Skipped, len(frontier))
+			break
+		}
 		frontier = next
 		depth++
 	}
+	pool.Deadline = time.Time{}
 	if len(st.Samples) == 0 {
 		st.Samples = append(st.Samples, fmt.Sprintf("[%s] (only programs shorter than 3 operations were explored)", name))
 	}
